@@ -54,11 +54,11 @@ Fixpoint run_f (fat : option nat) (tags : list (bytes * bytes)) (s : st) (sched 
 Lemma run_f_none tags s sched : run_f None tags s sched = run code_applies_filter tags s sched.
 Proof. revert s. induction sched as [|l tl IH]; intros s; [reflexivity|]. cbn [run_f run at_fat]. destruct l; apply IH. Qed.
 
-(* a clean restart finds the worker parked (LRestart) or asleep between two attempts (stop_retrying); a dropped source is
-   a surgery on the state (model/PipeSync.v) *)
+(* a clean restart finds the worker parked (LRestart) or asleep between two attempts (stop_retrying), or the pipe deleted
+   (restart_after_delete); a dropped source is a surgery on the state (model/PipeSync.v) *)
 Definition exec_op (fat : option nat) (tags : list (bytes * bytes)) (s : st) (o : sop) : st :=
   match o with
-  | SRestart => stop_retrying (run_f fat tags s [LRestart])
+  | SRestart => restart_after_delete code_saves_empty_registry (stop_retrying (run_f fat tags s [LRestart]))
   | SDropSource => drop_source s
   | _ => run_f fat tags s (sched_of o)
   end.
